@@ -6,6 +6,7 @@ condition is decided by the facts (Fourier-Motzkin entailment over <= ~12 constr
 A plugin receives *events* (handler invocation, store / memset / memcpy / external write through a pointer with a known
 root, allocation, free, opaque call, branch edge) and keeps its own finite flags.
 """
+import os
 from collections import deque
 from fractions import Fraction as Fr
 from .lin import Lin, entails, fm_unsat
@@ -705,6 +706,14 @@ class Engine:
                     x = s.stabilise(fr, i, raw, facts)
                     if x is not raw and x != raw and raw[0] == "p" and i["id"] not in lphis:
                         renames.append((raw, x))      # (not for loop-header phis: their atom is reused by the next iteration)
+                    if x is not raw and x != raw and raw[0] == "i" and x[0] == "i" and s.precision == "high" and len(raw[1].t) > 1:
+                        # a count computed from several path values (dmax - i) collapsed into the phi's own atom: keep what the path
+                        # knows about its lower bound, as for loop-carried counters (>= 1 decides whether a clearing loop runs at all)
+                        bf_ = s.base_facts(st.facts)
+                        for c_ in (1, 0):
+                            if entails(bf_, raw[1] - Lin.const(c_)):
+                                carried.append(x[1] - Lin.const(c_))
+                                break
                 if blk["insts"][-1]["op"] != "ret" and not (x[0] == "i" and x[1].is_const() and i["id"] in s.relevant_ids(fn)):
                     vs = s.phivals.setdefault(vid, set())
                     vs.add(x)
